@@ -229,11 +229,14 @@ func (f *Field[T]) Select(selector frontend.Variable, a, b *Element[T]) *Element
 	e := f.newInternalElement(make([]frontend.Variable, nbLimbs), overflow)
 	normalize := func(limbs []frontend.Variable) []frontend.Variable {
 		if len(limbs) < nbLimbs {
-			tail := make([]frontend.Variable, nbLimbs-len(limbs))
-			for i := range tail {
-				tail[i] = 0
+			// do not append in place: the limbs may be a sub-slice of a longer array (e.g. the hint outputs of a
+			// multiplication, where the carries follow the remainder) and appending would overwrite it
+			res := make([]frontend.Variable, nbLimbs)
+			copy(res, limbs)
+			for i := len(limbs); i < nbLimbs; i++ {
+				res[i] = 0
 			}
-			return append(limbs, tail...)
+			return res
 		}
 		return limbs
 	}
@@ -264,11 +267,14 @@ func (f *Field[T]) Lookup2(b0, b1 frontend.Variable, a, b, c, d *Element[T]) *El
 	e := f.newInternalElement(make([]frontend.Variable, nbLimbs), overflow)
 	normalize := func(limbs []frontend.Variable) []frontend.Variable {
 		if len(limbs) < nbLimbs {
-			tail := make([]frontend.Variable, nbLimbs-len(limbs))
-			for i := range tail {
-				tail[i] = 0
+			// do not append in place: the limbs may be a sub-slice of a longer array (e.g. the hint outputs of a
+			// multiplication, where the carries follow the remainder) and appending would overwrite it
+			res := make([]frontend.Variable, nbLimbs)
+			copy(res, limbs)
+			for i := len(limbs); i < nbLimbs; i++ {
+				res[i] = 0
 			}
-			return append(limbs, tail...)
+			return res
 		}
 		return limbs
 	}
@@ -305,11 +311,14 @@ func (f *Field[T]) Mux(sel frontend.Variable, inputs ...*Element[T]) *Element[T]
 	}
 	normalize := func(limbs []frontend.Variable) []frontend.Variable {
 		if len(limbs) < nbLimbs {
-			tail := make([]frontend.Variable, nbLimbs-len(limbs))
-			for i := range tail {
-				tail[i] = 0
+			// do not append in place: the limbs may be a sub-slice of a longer array (e.g. the hint outputs of a
+			// multiplication, where the carries follow the remainder) and appending would overwrite it
+			res := make([]frontend.Variable, nbLimbs)
+			copy(res, limbs)
+			for i := len(limbs); i < nbLimbs; i++ {
+				res[i] = 0
 			}
-			return append(limbs, tail...)
+			return res
 		}
 		return limbs
 	}
